@@ -217,6 +217,10 @@ pub fn decode_raw(d: &[u8], opts: &RefOpts) -> Wrapped {
 
 /// `max_cinfo`: the largest CINFO the decoder accepts (windowBits-8; 7 for windowBits 15 or 0)
 pub fn decode_zlib(d: &[u8], opts: &RefOpts, max_cinfo: u8) -> Wrapped {
+    // the window size is judged from the first two bytes, before the dictionary id is read
+    if d.len() >= 2 && ((d[0] as u16) << 8 | d[1] as u16) % 31 == 0 && d[0] & 0x0f == 8 && (d[0] >> 4) <= 7 && (d[0] >> 4) > max_cinfo {
+        return Wrapped::Bad { why: "window size larger than configured".into(), out: vec![] };
+    }
     let h = match parse_zlib_header(d) {
         Ok(h) => h,
         Err(HdrErr::Short) => return Wrapped::Short { out: vec![] },
